@@ -544,6 +544,92 @@ impl<R: Reg> Interp<R> {
                 }
                 self.note_mutation_after_clone(*w);
             }
+            Op::EntryChain { w, t, steps } => {
+                if R::N == 0 {
+                    self.stats.noops += 1;
+                    return Ok(());
+                }
+                let s = self.slot(*w);
+                if s.model.live.is_empty() {
+                    self.stats.noops += 1;
+                    return Ok(());
+                }
+                let id = s.model.live[idx(*t, s.model.live.len())];
+                let got = R::entry_chain(&mut s.real, id, steps);
+                if let Some(sh) = s.shadow.as_mut() {
+                    R::entry_chain(sh, id, steps);
+                }
+                let Some(got) = got else {
+                    fail!(self, &["C02"], "live-entry", "World::entry({id:?}) is None for a live entity");
+                };
+                // replay the steps on the reference map and compare what the handle showed
+                let step = self.step;
+                let s = self.slot(*w);
+                let comps = s.model.ents.get_mut(&id).unwrap();
+                let mut k = 0;
+                let mut paths = 0u32;
+                for (i, (kind, comp, p)) in steps.iter().enumerate() {
+                    let c = *comp as usize % R::N;
+                    match kind % 3 {
+                        0 => {
+                            if comps[c].is_some() {
+                                paths |= 2;
+                            }
+                            comps[c] = Some(MVal { payload: R::norm(c, *p % 60_000), serial: 0 });
+                        }
+                        1 => {
+                            if comps[c].is_some() {
+                                paths |= 4;
+                            }
+                            comps[c] = None;
+                        }
+                        _ => {
+                            let Some(obs) = got.get(k) else {
+                                return Err(Fail { props: &["C01", "C02"], oracle: "entry-handle", msg: "missing observation".into(), step });
+                            };
+                            k += 1;
+                            for cc in 0..R::N {
+                                let same = match (&comps[cc], obs[cc]) {
+                                    (None, None) => true,
+                                    (Some(m), Some(o)) => o.payload == m.payload && o.ok,
+                                    _ => false,
+                                };
+                                if !same {
+                                    return Err(Fail { props: &["C01", "C02", "C03"], oracle: "entry-handle", msg: format!("after {i} add/remove steps through one Entry handle for {id:?}, the handle shows component {cc} = {:?} but the entity holds {:?} (the handle addresses another row)", obs[cc].map(|o| o.payload), comps[cc].as_ref().map(|m| m.payload)), step });
+                                }
+                            }
+                        }
+                    }
+                }
+                self.stats.drop_paths |= paths;
+                self.stats.shape_change_existing += 1;
+                self.note_mutation_after_clone(*w);
+            }
+            Op::ExtendRagged { w, shape, lens, p } => {
+                let shapes = R::shapes();
+                let (mask, _, _) = shapes[idx(*shape, shapes.len())];
+                let k = mask.count_ones() as usize;
+                if k < 2 {
+                    self.stats.noops += 1;
+                    return Ok(());
+                }
+                let mut l: Vec<usize> = (0..k).map(|i| lens[i % lens.len()] as usize).collect();
+                if l.iter().all(|x| *x == l[0]) {
+                    l[k - 1] += 1;
+                }
+                let s = self.slot(*w);
+                let r = std::panic::catch_unwind(std::panic::AssertUnwindSafe(|| R::extend_ragged(&mut s.real, mask, &l, *p % 60_000)));
+                vcommon::talloc::track_set(false);
+                match r {
+                    Err(_) => {} // the documented panic; every value of the batch must be dropped by now (checked below)
+                    Ok(None) => {
+                        self.stats.noops += 1;
+                    }
+                    Ok(Some(ids)) => {
+                        fail!(self, &["C18", "C04", "C05"], "ragged-batch-accepted", "Batch::new accepted columns of lengths {l:?} (shape {mask:#b}) and extend returned {} identifiers: the surplus values belong to no entity", ids.len());
+                    }
+                }
+            }
             Op::Query { w, q, mode, salt } => {
                 let metas = R::queries();
                 let qi = idx(*q, metas.len());
